@@ -130,7 +130,7 @@ func runRaw(c *core.Check) {
 }
 
 // Family (v): text with character references.
-var textPieces = []string{"a", " ", ";", "=", "1", "#", "x", "&", "&amp;", "&lt;", "&gt;", "&nbsp;", "&notit;", "&not;", "&#38;", "&#x26;", "&amp", "&ampx", "&#0;", "&#128;", "<", ">"}
+var textPieces = []string{"a", " ", ";", "=", "1", "#", "x", "&", "&amp;", "&lt;", "&gt;", "&nbsp;", "&notit;", "&not;", "&#38;", "&#x26;", "&amp", "&ampx", "&#0;", "&#128;", "<", ">", "&num;"}
 
 func textDomain(s string) bool {
 	// a "<" followed by a letter, "/", "!" or "?" opens markup: not text
@@ -319,6 +319,8 @@ func runReviewed(c *core.Check) {
 		{"body", "<my-el><p>a</p></my-el><span>b</span>"}, {"body", "<slot><p>a</p></slot><span>b</span>"}, {"body", "<x-y><p>a</p> </x-y>b"}, {"body", "<canvas><p>a</p></canvas><span>b</span>"}, {"body", "<object><p>a</p></object><span>b</span>"}, {"body", "<video><p>a</p></video><span>b</span>"}, {"body", "<dialog><p>a</p></dialog><span>b</span>"}, {"body", "<details><summary>s</summary><p>a</p></details><span>b</span>"}, {"body", "<button><p>a</p></button><span>b</span>"},
 		// text that becomes a character reference when a comment between its parts is dropped
 		{"body", "<p>a &amp;<!---->lt; b</p>"}, {"body", "<p>a &<!---->amp; b</p>"}, {"body", "<p>a &am<!--x-->p; b</p>"}, {"body", "<p title=\"&amp;lt;\">a</p>"},
+		// text that becomes a character reference when the reference behind an ampersand is decoded
+		{"body", "<p>a &amp;&num;60; b</p>"}, {"body", "<p>&amp;&#108;t; b</p>"}, {"body", "<p>&amp;&#35;60;</p>"}, {"body", "<p title=\"&amp;&num;60;\">a</p>"}, {"body", "<p>&&num;60;</p>"}, {"body", "<p>&amp;&lpar;&amp;&semi;&amp;l&#116;;</p>"}, {"body", "<p>&amp;cop&#121; b</p>"},
 		// raw text elements with attributes of frameworks
 		{"document", "<!doctype html><html><head><title>t</title><style amp-boilerplate>a{content:\"&amp;   x\"}</style></head><body><p>x</p></body></html>"}, {"document", "<!doctype html><html><head><title>t</title><style amp-custom>a{content:\"&lt;  x\"}</style></head><body><p>x</p></body></html>"},
 		// the start tag of body before elements that would otherwise go to head
